@@ -1,0 +1,36 @@
+//go:build verif
+// +build verif
+
+package staking
+
+// Verification-only entry points (build tag `verif`): synchronous access to the module's local evidence list, i.e. to
+// what the event-mux subscriber of Start appends to and what slashing() consumes when a block is sealed.  No effect on
+// the normal build.
+
+// VerifSetEvidences replaces the local evidence list under the module's mutex.
+func (s *Staking) VerifSetEvidences(evs []Evidence) {
+	s.mutex.Lock()
+	defer s.mutex.Unlock()
+	s.evidences = make([]Evidence, 0, len(evs))
+	for _, e := range evs {
+		s.evidences = append(s.evidences, Evidence{Type: e.Type, Data: e.Data})
+	}
+}
+
+// VerifAddEvidence appends one evidence, exactly as the subscriber goroutine of Start does for an Evidence event.
+func (s *Staking) VerifAddEvidence(e Evidence) {
+	s.mutex.Lock()
+	s.evidences = append(s.evidences, e)
+	s.mutex.Unlock()
+}
+
+// VerifEvidences returns a copy (type and data only) of the local evidence list.
+func (s *Staking) VerifEvidences() []Evidence {
+	s.mutex.RLock()
+	defer s.mutex.RUnlock()
+	out := make([]Evidence, 0, len(s.evidences))
+	for _, e := range s.evidences {
+		out = append(out, Evidence{Type: e.Type, Data: e.Data})
+	}
+	return out
+}
